@@ -387,6 +387,10 @@ inline bool lifecycle_F(Rng& r, uint64_t idx)
   std::vector<std::thread> ths;
   std::string const shared_name = lw.tag + "_shared";
   std::atomic<Lg*> shared_seen{nullptr};
+  // a logger that lives for the whole scenario and sorts before every other name: Frontend::get_valid_logger() (a
+  // look-up like any other) always finds it, while other threads insert and erase registry entries behind it
+  Lg* const perm = Fe::create_or_get_logger("!" + lw.tag + "_perm", Fe::create_or_get_sink<RecSink>(lw.sink_names[0], 999999u), quill::PatternFormatterOptions{"%(message)"}, quill::ClockSourceType::System);
+  std::atomic<uint64_t> valid_lookups{0};
   for (uint32_t t = 0; t < nt; ++t)
   {
     uint64_t tseed = mix(r.next(), t);
@@ -444,6 +448,15 @@ inline bool lifecycle_F(Rng& r, uint64_t idx)
                              if (issue_std(tmp, lg, 0, quill::LogLevel::Info, tid, seq, static_cast<uint32_t>(tr.range(0, 50))).res == 1) inc.issued.emplace_back(tid, seq);
                              ++seq;
                              if (tr.chance(1, 20)) (void)Fe::get_logger(shared_name);
+                             if (tr.chance(1, 8))
+                             {
+                               valid_lookups.fetch_add(1, std::memory_order_relaxed);
+                               if (Fe::get_valid_logger() == nullptr)
+                               {
+                                 violation("C17", "get-valid-logger-found-nothing-although-a-valid-logger-exists", J{}.str("scenario", "lifecycle_F"));
+                                 bad.store(true);
+                               }
+                             }
                            }
                            Fe::remove_logger_blocking(lg, tr.chance(1, 2) ? 100 : 0);
                            if (Fe::get_logger(inc.name) != nullptr)
@@ -463,6 +476,8 @@ inline bool lifecycle_F(Rng& r, uint64_t idx)
   for (auto& t : ths) t.join();
   // the shared logger is removed by the main thread (one remover), sinks are dropped by the user
   if (Lg* sl = shared_seen.load()) Fe::remove_logger_blocking(sl);
+  Fe::remove_logger_blocking(perm);
+  stat_add("lifecycle_get_valid_logger_lookups", static_cast<long long>(valid_lookups.load()));
   for (auto& u : lw.user_ref) u.reset();
   // let the backend clean up: idle cycles
   uint64_t const mark = g_idle_cycles.load();
